@@ -389,7 +389,24 @@ def get_spec(prop):
     return _SPECS[prop]
 
 
+def _pad_call(n, fn, arg):
+    """Call fn(arg) under n extra Python frames (see _run_chunk)."""
+    if n <= 0:
+        return fn(arg)
+    return _pad_call(n - 1, fn, arg)
+
+
 def _run_chunk(args):
+    # CPython >= 3.11 keeps frames on a data stack of 16 KiB chunks which are
+    # mmap'ed/munmap'ed whenever the call depth crosses a chunk boundary; if the
+    # hot call depth of a run happens to straddle one, every crossing costs two
+    # system calls and four page faults.  VERIF_PAD shifts the alignment (speed
+    # only: no effect on any result).
+    pad = int(os.environ.get("VERIF_PAD", "0") or 0)
+    return _pad_call(pad, _run_chunk_inner, args)
+
+
+def _run_chunk_inner(args):
     prop, verif_seed, tier, start, stop = args
     spec = get_spec(prop)
     faulthandler.dump_traceback_later(spec.chunk_timeout, exit=True)
@@ -605,7 +622,11 @@ def run_check(spec, tier, verif_seed, n_runs=None, workers=None, first_run=0):
             for c in chunks:
                 results.append(_run_chunk(c))
         else:
+            import gc
+
             ctx = multiprocessing.get_context("fork")
+            gc.collect()
+            gc.freeze()  # keep the pre-warmed caches out of the workers' GC passes (no copy-on-write storms)
             with ProcessPoolExecutor(max_workers=workers, mp_context=ctx) as ex:
                 for r in ex.map(_run_chunk, chunks):
                     results.append(r)
